@@ -24,6 +24,8 @@ pub enum Op {
     Register { path: u8, lo_h: i8, off: u8, span_h: u8 },
     Delete { path: u8 },
     Compact { sources: Vec<u8>, target: u8 },
+    /// publish_compaction: the sources are replaced by a new chunk (fresh path) in one step
+    Publish { sources: Vec<u8>, lo_h: i8, off: u8, span_h: u8 },
 }
 
 #[derive(Clone, Debug, Serialize, Deserialize)]
@@ -57,8 +59,28 @@ struct MChunk {
     level: u32,
 }
 
-fn apply_model(m: &mut BTreeMap<String, MChunk>, op: &Op) -> bool {
+fn publish_target(tag: &str, lo_h: i8, off: u8, span_h: u8) -> ChunkMetadata {
+    let mut md = meta_for(0, lo_h, off, span_h);
+    md.path = format!("t/data/merged-{}.parquet", tag);
+    md
+}
+
+/// `tag` identifies the op (client, index): a publish writes to a path of its own, as the compactor does
+fn apply_model(m: &mut BTreeMap<String, MChunk>, op: &Op, tag: &str) -> bool {
     match op {
+        Op::Publish { sources, lo_h, off, span_h } => {
+            let srcs: Vec<String> = sources.iter().map(|s| path_name(*s)).collect();
+            if srcs.iter().any(|s| !m.contains_key(s)) {
+                return false;
+            }
+            let lvl = srcs.iter().filter_map(|s| m.get(s).map(|c| c.level)).max().unwrap_or(0) + 1;
+            for s in &srcs {
+                m.remove(s);
+            }
+            let md = publish_target(tag, *lo_h, *off, *span_h);
+            m.insert(md.path.clone(), MChunk { min: md.min_timestamp, max: md.max_timestamp, rows: md.row_count, size: md.size_bytes, level: lvl });
+            true
+        }
         Op::Register { path, lo_h, off, span_h } => {
             let md = meta_for(*path, *lo_h, *off, *span_h);
             m.insert(md.path.clone(), MChunk { min: md.min_timestamp, max: md.max_timestamp, rows: md.row_count, size: md.size_bytes, level: 0 });
@@ -137,7 +159,7 @@ pub fn exec(case: &Case) -> Outcome {
                     let md = meta_for(*path, *lo_h, *off, *span_h);
                     setup.register_chunk(&md.path, &md).await.expect("set-up register");
                 }
-                apply_model(&mut model, &op);
+                apply_model(&mut model, &op, "setup");
             }
         }
         let setup_versions = core.versions().len();
@@ -178,6 +200,10 @@ pub fn exec(case: &Case) -> Outcome {
                             let srcs: Vec<String> = sources.iter().map(|s| path_name(*s)).collect();
                             client.complete_compaction(&srcs, &path_name(*target)).await
                         }
+                        Op::Publish { sources, lo_h, off, span_h } => {
+                            let srcs: Vec<String> = sources.iter().map(|s| path_name(*s)).collect();
+                            client.publish_compaction(&srcs, &publish_target(&format!("c{}o{}", ci, idx), *lo_h, *off, *span_h)).await
+                        }
                     };
                     let to = core2.log_len() as u64;
                     // (d) read-your-writes on the issuing client (served from its own cache: no request)
@@ -203,6 +229,17 @@ pub fn exec(case: &Case) -> Outcome {
                                             ryw = Some(format!("after successful compaction source {} is still visible to the same client", path_name(*s)));
                                         }
                                     }
+                                }
+                            }
+                            Op::Publish { sources, lo_h, off, span_h } => {
+                                for s in sources {
+                                    if let Ok(Some(_)) = client.get_chunk(&path_name(*s)).await {
+                                        ryw = Some(format!("after a successful publish source {} is still visible to the same client", path_name(*s)));
+                                    }
+                                }
+                                let t = publish_target(&format!("c{}o{}", ci, idx), *lo_h, *off, *span_h);
+                                if !matches!(client.get_chunk(&t.path).await, Ok(Some(_))) {
+                                    ryw = Some(format!("after a successful publish the target {} is not visible to the same client", t.path));
                                 }
                             }
                         }
@@ -296,6 +333,12 @@ pub fn exec(case: &Case) -> Outcome {
         if results.iter().any(|r| !r.ok && r.err.contains("TooManyRetries")) {
             out.class("retry-exhaustion");
         }
+        if results.iter().any(|r| !r.ok && r.err.contains("no longer in catalog")) {
+            out.class("publish-refused-source-gone");
+        }
+        if results.iter().any(|r| r.ok && matches!(case.clients[r.client][r.idx], Op::Publish { .. })) {
+            out.class("publish-succeeded");
+        }
         if results.iter().any(|r| !r.ok && r.err.contains("not found in catalog")) {
             out.class("compaction-target-missing");
         }
@@ -343,7 +386,7 @@ pub fn exec(case: &Case) -> Outcome {
         // (a) witness
         for (_, r) in &committed {
             let op = &case.clients[r.client][r.idx];
-            let applied = apply_model(&mut model, op);
+            let applied = apply_model(&mut model, op, &format!("c{}o{}", r.client, r.idx));
             if !applied {
                 out.set_fail("success-of-inapplicable-op", format!("client {} op {} ({:?}) reported success although, at its commit point, it should have been refused", r.client, r.idx, op));
                 return out;
@@ -386,6 +429,7 @@ fn op() -> impl Strategy<Value = Op> {
         5 => (0u8..NPATHS, -3i8..30, any::<u8>(), 0u8..3).prop_map(|(path, lo_h, off, span_h)| Op::Register { path, lo_h, off, span_h }),
         2 => (0u8..NPATHS).prop_map(|path| Op::Delete { path }),
         2 => (prop::collection::vec(0u8..NPATHS, 1..4), 0u8..NPATHS).prop_map(|(sources, target)| Op::Compact { sources, target }),
+        3 => (prop::collection::vec(0u8..NPATHS, 1..4), -3i8..30, any::<u8>(), 0u8..3).prop_map(|(sources, lo_h, off, span_h)| Op::Publish { sources, lo_h, off, span_h }),
     ]
 }
 
@@ -406,7 +450,7 @@ pub fn def() -> PropDef {
     PropDef {
         id: "C02",
         level: "exploration",
-        rule: "2-6 ObjectStoreMetadataClients, each 1-4 (thorough 6) ops from {register(8 paths, multi-bucket intervals), delete, complete_compaction}, interleaved at object-store-request granularity by a generated schedule (incl. virtual-time waits and an optional victim that is always overtaken between GET and PUT); 0-4 chunks pre-registered. Non-trivial = at least one conditional PUT on catalog.json was answered with a conflict. Distinct = distinct canonical JSON of (ops, schedule, victim, initial).",
+        rule: "2-6 ObjectStoreMetadataClients, each 1-4 (thorough 6) ops from {register(8 paths, multi-bucket intervals), delete, complete_compaction, publish_compaction(1-3 sources -> a fresh path, must be refused unless every source is registered at its commit point)}, interleaved at object-store-request granularity by a generated schedule (incl. virtual-time waits and an optional victim that is always overtaken between GET and PUT); 0-4 chunks pre-registered. Non-trivial = at least one conditional PUT on catalog.json was answered with a conflict. Distinct = distinct canonical JSON of (ops, schedule, victim, initial).",
         assumptions: &[
             "SimStore conforms to S3 conditional-write semantics (If-None-Match:* create, If-Match:etag update, strong read-after-write); it mirrors object_store::memory::InMemory",
             "a schedule is a total order of request effects (requests are atomic)",
